@@ -525,6 +525,7 @@ type CallsiteSpec struct {
 	Callee   string // suffix of the callee key, e.g. "os.Exit"
 	Requires []*Clause
 	Assumes  []*Clause // stated-lemma facts about the callee's results, assumed after the call (listed in evidence)
+	used     bool
 }
 
 type GhostField struct {
